@@ -91,6 +91,26 @@ CLAIMED.update({
     },
 })
 
+CLAIMED.update({
+    "C16": {
+        "technique": "static analysis: exhaustive path enumeration over MIR with symbolic guards/places; lock-discipline, hand-off pairing, pending-needs-waker, publication-order rules over event traces",
+        "level": ("Static, all paths of every function in spill_pool.rs (loops unrolled twice): never both locks held; every Pending "
+                  "return registered the waker through a live guard or delegates; remaining_writer_count written only by new_sink(+1) "
+                  "and Drop(-1) and the last-writer path finalises every open file and wakes the pool reader; in push_batch every exit "
+                  "after a file left open_write_files either re-queues it or seals it and wakes its reader (this rule found the hang "
+                  "repaired by fix commit 476b10e); batches_written is published only after append+flush and followed by a wake. "
+                  "Exactly-once delivery and order of values are not decided."),
+    },
+    "C21": {
+        "technique": "static analysis: exhaustive path enumeration over MIR with symbolic place tags; charge pairing / ordering rules over event traces; who-may-write census",
+        "level": ("Static, all paths of FileSpillWriter::write, Drop for RefCountedTempFile and DiskManager::create_tmp_file: every charge "
+                  "of used_disk_space is rolled back on error exits or transferred to the file's own usage on success (found the leak "
+                  "repaired by fix commit a1882c1); charge and limit lookup precede the write; the last-reference drop subtracts exactly "
+                  "the file's recorded usage once; active_files_count is incremented only on the path that returns the handle (fix "
+                  "da8a358); the three counters are written by no other function. The IPC byte round trip is not decided."),
+    },
+})
+
 NA = {
     'C01': 'whole-pipeline value semantics over all queries x all table contents: functional verification, no clause visible in code shape beyond C03/C05/C47',
     'C08': 'ordering/permutation of runtime values (loser tree, cursors, heaps are value algorithms); no structural clause',
